@@ -294,9 +294,10 @@ Fixpoint ssize (s : sst) : nat :=
 with slsize (q : slst) : nat :=
   match q with
   | TChunk _ chunk p => S (length chunk + 2 * ssize p)
-  | TRuns r _ cur _ p =>
-      S (S (runs_w r (option_map (fun prev => (prev, true)) cur) (pk_has p) (pk_curr p)
-            + 3 * ssize (pk_in p)))
+  | TRuns r _ cur pend p =>
+      S (S (match pend with Some acc => S (length acc) | None => O end
+            + (runs_w r (option_map (fun prev => (prev, true)) cur) (pk_has p) (pk_curr p)
+               + 3 * ssize (pk_in p))))
   end.
 
 (* Close: the Close calls that reach the instrumented sources, in order *)
